@@ -30,6 +30,15 @@
    VF_CFG( "act-req-obs-eager", TOP, ACT, vf::obs_control_unw, action, required, eager, true, true, false, true, true );        \
    VF_CFG( "act-opt-obsnu-lazy", TOP, ACT, vf::obs_control_nounwind, action, optional, lazy, true, false, true, true, true );   \
    VF_CFG( "none-nothing-req-plain-eager", TOP, tao::pegtl::nothing, vf::plain_control, nothing, required, eager, false, true, false, false, false )
+#elif VF_CFGSET == 5
+// C06: eager / lazy, default and non-default initial counters (byte 7 line 5 column 4)
+#define VF_CFG_CNT( NAME, TOP, ACT, CTL, A, M, T, actions, required, lazy ) \
+   e.cfgs.push_back( vf::cfg_entry{ NAME, &vf::runner_counters< TOP, ACT, CTL, tao::pegtl::apply_mode::A, tao::pegtl::rewind_mode::M, tao::pegtl::tracking_mode::T, VF_EOL, 7, 5, 4 >, actions, required, lazy, true, true, VF_EOL_ID, 7, 5, 4 } )
+#define VF_CFGS( e, TOP, ACT )                                                                                                 \
+   VF_CFG( "act-req-obs-eager", TOP, ACT, vf::obs_control_unw, action, required, eager, true, true, false, true, true );        \
+   VF_CFG( "act-opt-obsnu-lazy", TOP, ACT, vf::obs_control_nounwind, action, optional, lazy, true, false, true, true, true );   \
+   VF_CFG_CNT( "act-opt-obs-eager-counters", TOP, ACT, vf::obs_control_unw, action, optional, eager, true, false, false );      \
+   VF_CFG_CNT( "act-req-obs-lazy-counters", TOP, ACT, vf::obs_control_unw, action, required, lazy, true, true, true )
 #elif VF_CFGSET == 4
 // C08: observer through state_control, and the coverage facility
 #define VF_CFGS( e, TOP, ACT )                                                                                                 \
